@@ -283,7 +283,21 @@ def _r2(run, prog, inst, mods):
 
         def ev(self, n):
             if isinstance(n, ast.BinOp) and isinstance(n.op, ast.Pow) and isinstance(n.left, ast.Constant) and n.left.value == 10:
-                return L('pow10(%s)' % super().ev(n.right).key())
+                e = self.ev(n.right)
+                # 10 ** (a + k) = 10^k * 10 ** a for an integer constant k
+                if e.d.is_const():
+                    c0 = e.n.const_value() / e.d.const_value()
+                    if c0.denominator == 1 and c0 != 0 and len(e.n) > 1:
+                        rest = e - C(c0)
+                        return C(Fraction(10) ** int(c0)) * L('pow10(%s)' % rest.key())
+                return L('pow10(%s)' % e.key())
+            if isinstance(n, ast.Call) and dotted(n.func) in ('np.log10', 'log10', 'math.log10') and len(n.args) == 1:
+                v = self.ev(n.args[0])
+                if v.is_const() and v.const_value() > 0:
+                    import math
+                    k = round(math.log10(v.const_value()))
+                    if Fraction(10) ** k == v.const_value():
+                        return C(k)
             return super().ev(n)
     ce = ConvEval()
     run_block(ce, [st for lp in ast.walk(nf) if isinstance(lp, ast.For) for st in lp.body if (isinstance(st, ast.Assign) and isinstance(st.targets[0], ast.Name)) or isinstance(st, ast.AugAssign)])
@@ -304,6 +318,9 @@ def _r2(run, prog, inst, mods):
             if ratio.is_const():
                 run.fail('C08-R2', K + 'conversion:' + k, inst.relpath, nf.lineno,
                          "ADF11 '%s' is converted as %s: off by the factor %s from the documented %s * 10^x" % (k, norm(g[1]), ratio.const_value(), fac.key()))
+            elif all(l.startswith('pow10(') and src in l for l in val.leaves()):
+                run.fail('C08-R2', K + 'conversion:' + k, inst.relpath, nf.lineno,
+                         "ADF11 '%s' is converted as %s, which is not %s * 10^x of the parsed table" % (k, norm(g[1]), fac.key()))
             else:
                 run.undecided('C08-R2', 'ADF11 ' + k, 'conversion written in a form the algebra does not recognise: %s' % norm(g[1]))
     # the converter must not modify the parser output in place (the parser shares one axis array between charge states)
@@ -677,6 +694,7 @@ MUTANTS = [
 ]
 MUTANTS = [m for m in MUTANTS if m.get('expect')]
 TWINS = [
+    dict(name='conversion-in-the-exponent', file=_IN, find='rate_cherab[i][j + charge_correction]["ne"] = PerCm3ToPerM3.to(10**rate_adas[i][j]["ne"])', replace='rate_cherab[i][j + charge_correction]["ne"] = 10**(rate_adas[i][j]["ne"] + 6)'),
     dict(name='conversion-written-as-product', file=_IN, find='rate_cherab[i][j + charge_correction]["ne"] = PerCm3ToPerM3.to(10**rate_adas[i][j]["ne"])', replace='rate_cherab[i][j + charge_correction]["ne"] = 10**rate_adas[i][j]["ne"] * PerCm3ToPerM3.conversion_factor'),
     dict(name='message-text', file=_A15, find="Unable to parse ADF15 metadata.", replace="Could not parse the ADF15 metadata."),
 ]
